@@ -82,6 +82,12 @@ func alphaZero(t int) []sym {
 	return a
 }
 
+// paramDeltas lists (video kind, component) pairs: the writer's two parameter sets differ in that component only.
+func paramDeltas() [][2]string {
+	return [][2]string{{"h264", "pps"}, {"h264", "sps"}, {"h265", "vps"}, {"h265", "sps"}, {"h265", "pps"},
+		{"vp9", "width"}, {"vp9", "height"}, {"vp9", "profile"}, {"vp9", "bitdepth"}, {"vp9", "chroma"}, {"vp9", "range"}}
+}
+
 func alphaInterleave(cfg muxCfg) []sym {
 	var a []sym
 	for i, t := range cfg.Tracks {
@@ -224,6 +230,20 @@ func e1Scens(prop, tier string) []e1Scen {
 		}
 		out = append(out, e1Shard(per, shards)...)
 	}
+	// parameter sets that differ in exactly one of the components the muxer watches
+	for _, kd := range paramDeltas() {
+		variant := "fmp4"
+		if kd[0] == "h264" && kd[1] == "pps" {
+			variant = "mpegts"
+		}
+		cfg := mcfg(variant, false, 3, kd[0])
+		cfg.ParamDelta = kd[1]
+		sc := e1Scen{Prop: prop, Cfg: cfg, Alpha: alphaParams(0), Depth: depth - 1, Mode: "tree", Name: "param-delta-tree"}
+		out = append(out, sc)
+	}
+	llp := mcfg("ll", false, 7, "h264")
+	llp.ParamDelta = "pps"
+	out = append(out, e1Scen{Prop: prop, Cfg: llp, Alpha: alphaParams(0), Depth: depth - 1, Mode: "tree", Name: "param-delta-tree"})
 	// audio-only MPEG-TS starts a new segment only after 100 writes: periodic words long enough for four segments
 	tsa := mcfg("mpegts", false, 3, "aac44")
 	per := e1Scen{Prop: prop, Cfg: tsa, Alpha: alphaAudio(tsa), Mode: "periodic", Period: 2, Len: 430, Name: "ts-audio-only-periodic"}
